@@ -597,7 +597,8 @@ class Block:
                                     for j in range(w.width):
                                         shift = w.width - j - 1
                                         rel_i = (i//sustain_count) * sustain_count
-                                        if rel_i - shift >= 0:
+                                        # A derived source factor has "" before its own start
+                                        if rel_i - shift >= 0 and results[df.name][rel_i - shift] != "":
                                             args.append(results[df.name][rel_i - shift])
                                         else:
                                             args.append(None)
